@@ -68,9 +68,13 @@ Higher(new, old) == Prec(new) > Prec(old)
                       files : set of file atoms] *)
 NoPlugin == [present |-> FALSE, ver |-> 0, files |-> {}]
 
-(* a source: [ver, meta : "ok"|"invalid"|"misnamed", shape : "file"|"dir", cand : "exec"|"nonexec"|"two"|"none",
+(* a source: [ver, meta : "ok"|"invalid"|"misnamed", shape : "file"|"dir", cand : "exec"|"nonexec"|"two"|"none"|"linkOnly",
               extras : Seq of extra file atoms, subdir : BOOLEAN, overwrite : BOOLEAN, loc : "elsewhere"|"installed"] *)
 CandLike == {"cand-before", "cand-after"}      \* extra NON-executable files whose names have the plugin file-name format
+(* symbolic links among the source directory's entries (onto a data file, onto nothing, or named like a plugin and onto an
+   executable): not regular files of the source, hence never candidates and never installed.  cand = "linkOnly": the only
+   entry of the plugin file-name format is such a link - the directory holds no candidate *)
+LinkAtoms == {"link-file", "link-dangling", "link-cand"}
 (* src.loc = "installed": the source IS the installed plugin - its own directory or executable below the plugin root.  Such a
    source is unusable (the plugin cannot be replaced by itself) and, like every refused installation, leaves the plugin alone *)
 Usable(src) == /\ src.loc = "elsewhere"
@@ -85,7 +89,7 @@ Replaces(versions, cur, src) ==
   \/ (src.ver # 0 /\ cur.ver # 0 /\ Higher(versions[src.ver], versions[cur.ver]))     \* strictly higher, both valid SemVer
 InstallOK(versions, cur, src) == Usable(src) /\ Replaces(versions, cur, src)
 (* the installed directory holds exactly the regular top-level files of the source *)
-FilesOf(src) == {"executable"} \cup (IF src.shape = "dir" THEN Range(src.extras) ELSE {})
+FilesOf(src) == {"executable"} \cup (IF src.shape = "dir" THEN Range(src.extras) \ LinkAtoms ELSE {})
 
 ApplyInstall(versions, cur, src) ==
   IF InstallOK(versions, cur, src) THEN [present |-> TRUE, ver |-> src.ver, files |-> FilesOf(src)]
